@@ -173,6 +173,7 @@ func ruleEnv(c *Ctx) {
 	var hostNode *Node
 	var hostExpr ast.Expr
 	var envSpliceNode *Node
+	hostIntoSlice := false // the host environment is appended to the control-variable slice itself
 	addElems := func(n *Node, elems []ast.Expr, via bool) {
 		for _, el := range elems {
 			if k := p.envKeyOf(f, el); k != "" {
@@ -222,6 +223,7 @@ func ruleEnv(c *Ctx) {
 					}
 					// inherited host environment
 					hostNode, hostExpr = n, src
+					hostIntoSlice = toEnvSlice && !toCmdEnv
 					continue
 				}
 				addElems(n, call.Args[1:], toEnvSlice)
@@ -323,6 +325,11 @@ func ruleEnv(c *Ctx) {
 		}
 		// O5: no control-variable append to cmd.Env may precede the host environment
 		bad := false
+		if hostIntoSlice {
+			bad = true
+			c.R.Violate("R-ORDER/O5", p.Pos(hostNode.Ast), f.Name, "host environment before control variables",
+				"the inherited host environment is appended to the slice that already holds the control variables, so it follows them in the plugin's environment and a host value of the same name wins (later duplicates win)", nil)
+		}
 		ctrl := []*Node{envSpliceNode}
 		for _, en := range entries {
 			if !en.viaEnv {
